@@ -14,22 +14,10 @@ theorem pin_solution_Solution_anchor : pin_solution_Solution = "f2951bc3f76c80c1
 theorem pin_scipy_solver_solve_scipy_anchor : pin_scipy_solver_solve_scipy = "e7c69a3a73fa09d9" := rfl
 /-- `solve_lp` (solvers/lp_solver.py) -/
 theorem pin_lp_solver_solve_lp_anchor : pin_lp_solver_solve_lp = "244fed8ae6b2b560" := rfl
-/-- `Problem.__init__` (problem.py) -/
-theorem pin_problem_Problem__init_anchor : pin_problem_Problem__init = "b8e52e8b31ddb817" := rfl
-/-- `Problem._invalidate_caches` (problem.py) -/
-theorem pin_problem_Problem_invalidate_caches_anchor : pin_problem_Problem_invalidate_caches = "d41655a6188482c1" := rfl
-/-- `Problem.minimize` (problem.py) -/
-theorem pin_problem_Problem_minimize_anchor : pin_problem_Problem_minimize = "9a4f17026f83d644" := rfl
-/-- `Problem.maximize` (problem.py) -/
-theorem pin_problem_Problem_maximize_anchor : pin_problem_Problem_maximize = "ab5e9d027ebfd2b7" := rfl
-/-- `Problem.subject_to` (problem.py) -/
-theorem pin_problem_Problem_subject_to_anchor : pin_problem_Problem_subject_to = "727808edd19107ef" := rfl
 /-- `Problem._validate_expression` (problem.py) -/
 theorem pin_problem_Problem_validate_expression_anchor : pin_problem_Problem_validate_expression = "c1cde4a100b85f9c" := rfl
 /-- `Problem._validate_constraint` (problem.py) -/
 theorem pin_problem_Problem_validate_constraint_anchor : pin_problem_Problem_validate_constraint = "86c81ec384d8e567" := rfl
-/-- `Problem._is_linear_problem` (problem.py) -/
-theorem pin_problem_Problem_is_linear_problem_anchor : pin_problem_Problem_is_linear_problem = "ef383bb402f0c8fd" := rfl
 /-- `Problem._only_simple_bounds` (problem.py) -/
 theorem pin_problem_Problem_only_simple_bounds_anchor : pin_problem_Problem_only_simple_bounds = "db45e87281100d80" := rfl
 /-- `Problem._has_equality_constraints` (problem.py) -/
@@ -54,7 +42,7 @@ theorem pin_compiler_compile_to_dict_function_anchor : pin_compiler_compile_to_d
 theorem pin_compiler_CompiledExpression_anchor : pin_compiler_CompiledExpression = "46e07aadf48eb02a" := rfl
 
 /-- every function the model of C07 transcribes (and no translator covers) is the one it was read from -/
-theorem anchors : pin_solution_Solution = "f2951bc3f76c80c1" ∧ pin_scipy_solver_solve_scipy = "e7c69a3a73fa09d9" ∧ pin_lp_solver_solve_lp = "244fed8ae6b2b560" ∧ pin_problem_Problem__init = "b8e52e8b31ddb817" ∧ pin_problem_Problem_invalidate_caches = "d41655a6188482c1" ∧ pin_problem_Problem_minimize = "9a4f17026f83d644" ∧ pin_problem_Problem_maximize = "ab5e9d027ebfd2b7" ∧ pin_problem_Problem_subject_to = "727808edd19107ef" ∧ pin_problem_Problem_validate_expression = "c1cde4a100b85f9c" ∧ pin_problem_Problem_validate_constraint = "86c81ec384d8e567" ∧ pin_problem_Problem_is_linear_problem = "ef383bb402f0c8fd" ∧ pin_problem_Problem_only_simple_bounds = "db45e87281100d80" ∧ pin_problem_Problem_has_equality_constraints = "56258a35419a78c5" ∧ pin_compiler_compile_expression = "db0179ead8cd3aa4" ∧ pin_compiler_compile_cached = "4ab132ae0ee10316" ∧ pin_compiler_estimate_tree_depth = "6602d5290a7341a7" ∧ pin_compiler_param_value = "79e7de7cdae81265" ∧ pin_compiler_build_evaluator = "1713d91c1ff10a41" ∧ pin_compiler_build_vector_evaluator = "67df2b0fb1835668" ∧ pin_compiler_build_evaluator_iterative = "d5dd43419b94dc08" ∧ pin_compiler_compile_to_dict_function = "9c1b94dcff42b825" ∧ pin_compiler_CompiledExpression = "46e07aadf48eb02a" :=
-  ⟨pin_solution_Solution_anchor, pin_scipy_solver_solve_scipy_anchor, pin_lp_solver_solve_lp_anchor, pin_problem_Problem__init_anchor, pin_problem_Problem_invalidate_caches_anchor, pin_problem_Problem_minimize_anchor, pin_problem_Problem_maximize_anchor, pin_problem_Problem_subject_to_anchor, pin_problem_Problem_validate_expression_anchor, pin_problem_Problem_validate_constraint_anchor, pin_problem_Problem_is_linear_problem_anchor, pin_problem_Problem_only_simple_bounds_anchor, pin_problem_Problem_has_equality_constraints_anchor, pin_compiler_compile_expression_anchor, pin_compiler_compile_cached_anchor, pin_compiler_estimate_tree_depth_anchor, pin_compiler_param_value_anchor, pin_compiler_build_evaluator_anchor, pin_compiler_build_vector_evaluator_anchor, pin_compiler_build_evaluator_iterative_anchor, pin_compiler_compile_to_dict_function_anchor, pin_compiler_CompiledExpression_anchor⟩
+theorem anchors : pin_solution_Solution = "f2951bc3f76c80c1" ∧ pin_scipy_solver_solve_scipy = "e7c69a3a73fa09d9" ∧ pin_lp_solver_solve_lp = "244fed8ae6b2b560" ∧ pin_problem_Problem_validate_expression = "c1cde4a100b85f9c" ∧ pin_problem_Problem_validate_constraint = "86c81ec384d8e567" ∧ pin_problem_Problem_only_simple_bounds = "db45e87281100d80" ∧ pin_problem_Problem_has_equality_constraints = "56258a35419a78c5" ∧ pin_compiler_compile_expression = "db0179ead8cd3aa4" ∧ pin_compiler_compile_cached = "4ab132ae0ee10316" ∧ pin_compiler_estimate_tree_depth = "6602d5290a7341a7" ∧ pin_compiler_param_value = "79e7de7cdae81265" ∧ pin_compiler_build_evaluator = "1713d91c1ff10a41" ∧ pin_compiler_build_vector_evaluator = "67df2b0fb1835668" ∧ pin_compiler_build_evaluator_iterative = "d5dd43419b94dc08" ∧ pin_compiler_compile_to_dict_function = "9c1b94dcff42b825" ∧ pin_compiler_CompiledExpression = "46e07aadf48eb02a" :=
+  ⟨pin_solution_Solution_anchor, pin_scipy_solver_solve_scipy_anchor, pin_lp_solver_solve_lp_anchor, pin_problem_Problem_validate_expression_anchor, pin_problem_Problem_validate_constraint_anchor, pin_problem_Problem_only_simple_bounds_anchor, pin_problem_Problem_has_equality_constraints_anchor, pin_compiler_compile_expression_anchor, pin_compiler_compile_cached_anchor, pin_compiler_estimate_tree_depth_anchor, pin_compiler_param_value_anchor, pin_compiler_build_evaluator_anchor, pin_compiler_build_vector_evaluator_anchor, pin_compiler_build_evaluator_iterative_anchor, pin_compiler_compile_to_dict_function_anchor, pin_compiler_CompiledExpression_anchor⟩
 
 end Optyx.Props.PinsC07
